@@ -294,6 +294,8 @@ def obligations(tier="quick", mutate=None, tag="", props=()):
     init = [st for st in x.fn.body if isinstance(st, ast.Expr) and ast.unparse(st.value) == "%s(type(self))" % x.set_state.name and st.lineno < loop_lo]
     out.append(mk("invariant/initial-class-is-type(self)", "frame", "the loop is entered with the tables of type(self)",
                   status=DISCHARGED if init else REFUTED, backend="extract", detail="", model=None if init else {"witness": "no `_set_state(type(self))` before the loop"}))
+    # (3b) the real prologue, executed symbolically, hands the loop exactly the caller's text / index / lineno and the tables of type(self)
+    out.extend(prologue_obligations(x, tv, tier, mk))
     # (4) step refinement
     reg = LexRegistry(tv)
     p = Path()
@@ -345,6 +347,72 @@ def obligations(tier="quick", mutate=None, tag="", props=()):
                   decide=smt_decider(pre + allfacts, z3.Or(*covered) if covered else z3.BoolVal(False), tier, model_vars=mv)))
     for o in out:
         o.meta.setdefault("dropped", x.dropped)
+    return out
+
+
+def prologue_obligations(x, tv, tier, mk):
+    from contracts.sly_yacc import ParseExec, ParseRegistry
+
+    class PrologueExec(ParseExec):
+        def st_FunctionDef(self, st, rest, p):
+            p.env[st.name] = ("closure", st)
+            self.block(rest, p)
+
+        def call(self, f, pos, kw, p, node):
+            if isinstance(f, tuple) and f[0] == "closure":
+                fn = f[1]
+                names = [a.arg for a in fn.args.args]
+                if kw or len(pos) != len(names):
+                    raise OutOfSubset("closure call arity")
+                for nme, v in zip(names, pos):
+                    p.env[nme] = v
+                sub = type(self)(self.mod, self.reg, self.tier)
+                outs = sub.run_block(list(fn.body), p)       # nonlocal: the closure works on the enclosing function's variables
+                res = []
+                for (p2, kind, v) in outs:
+                    if kind in ("fallthrough", "return"):
+                        res.append((p2, NONE if kind == "fallthrough" else v))
+                    elif kind == "raise":
+                        res.append((p2, v))
+                    else:
+                        raise OutOfSubset("loop control inside a closure")
+                return res
+            return ParseExec.call(self, f, pos, kw, p, node)
+
+    stop = x.enclosing_try.lineno if x.enclosing_try is not None else x.loop.lineno
+    pro = [st for st in x.fn.body if st.lineno < stop]
+    reg = ParseRegistry()
+    TYPEOF = z3.Function("typeof", Val, Val)
+    reg.ext["builtins.type"] = lambda ex, p, pos, kw, node: [(p, TYPEOF(to_val(pos[0])))]
+    p = Path()
+    selfobj = p.new_obj(MOD + ".Lexer", origin="arg:self")
+    text0, index0, lineno0 = z3.String("text@entry"), z3.Int("index@entry"), z3.Int("lineno@entry")
+    p.env.update({"self": selfobj, "text": text0, "index": index0, "lineno": lineno0})
+    try:
+        outs = PrologueExec(x.mod, reg, tier).run_block(pro, p)
+    except OutOfSubset as e:
+        return [mk("prologue/in-subset", "safety", "the scanner prologue is inside the supported subset", status=UNDECIDED, backend="pyvc", detail="out of subset: %s" % e)]
+    out = []
+    C0 = TYPEOF(to_val(selfobj))
+    for k, (pp, kind, v) in enumerate(outs):
+        if kind != "fallthrough":
+            out.append(mk("prologue#p%d/reaches-the-loop" % k, "post", "the prologue reaches the loop on every path", status=REFUTED, backend="pyvc",
+                          detail="%s %s" % (kind, v), model={"witness": ""}))
+            continue
+        env = pp.env
+        conj = []
+        try:
+            conj = [to_val(env["text"]) == to_val(text0), to_val(env["index"]) == to_val(index0), to_val(env["lineno"]) == to_val(lineno0)]
+            for var, attr in tv.items():
+                conj.append(to_val(env[var]) == ATTR(attr)(C0))
+            st_text = pp.heap[selfobj.oid]["attrs"].get("text")
+            conj.append(to_val(st_text) == to_val(text0) if st_text is not None else z3.BoolVal(False))
+        except (KeyError, OutOfSubset) as e:
+            out.append(mk("prologue#p%d/establishes-initial-state" % k, "post", "loop variables bound", status=REFUTED, backend="pyvc", detail=repr(e), model={"witness": ""}))
+            continue
+        out.append(mk("prologue#p%d/establishes-initial-state" % k, "post",
+                      "the loop starts on exactly the text, index and lineno the caller passed, with the tables of type(self); self.text is that text",
+                      decide=smt_decider(pp.pc + pp.facts, z3.And(*conj), tier, model_vars={"text": text0, "index": index0, "lineno": lineno0})))
     return out
 
 
